@@ -19,6 +19,7 @@ import (
 	"bytes"
 	"errors"
 	"fmt"
+	"math"
 	"reflect"
 	"sort"
 	"sync"
@@ -1690,6 +1691,12 @@ func (r *RIBHolder) DeleteMPLS(e *aftpb.Afts_LabelEntryKey) (bool, *aft.Afts_Lab
 
 	if _, ok := e.GetLabel().(*aftpb.Afts_LabelEntryKey_LabelUint64); !ok {
 		return false, nil, fmt.Errorf("unsupported label type %T, only uint64 labels are supported, %v", e, e)
+	}
+
+	if e.GetLabelUint64() > math.MaxUint32 {
+		// Labels are stored as uint32, do not let an out of range value alias an
+		// installed label by being truncated.
+		return false, nil, fmt.Errorf("invalid MPLS label %d, out of range", e.GetLabelUint64())
 	}
 
 	lbl := uint32(e.GetLabelUint64())
